@@ -142,8 +142,17 @@ class TlcResult:
         self.out_path = None
 
 
+def java_tmp():
+    """TLC unpacks its standard modules into a fresh directory under java.io.tmpdir on every start and leaves it there; keep those
+    inside this process's scratch area (removed with it) instead of /tmp."""
+    d = os.path.join(WORK, "jtmp")
+    os.makedirs(d, exist_ok=True)
+    return d
+
+
 def _java_cmd(xmx, xss, dfs, extra_props=()):
-    cmd = ["java", "-XX:+UseParallelGC", "-XX:ParallelGCThreads=2", "-Xmx" + xmx, "-Xss" + xss, "-DTLA-Library=" + LIBPATH]
+    cmd = ["java", "-XX:+UseParallelGC", "-XX:ParallelGCThreads=2", "-Xmx" + xmx, "-Xss" + xss, "-DTLA-Library=" + LIBPATH,
+           "-Djava.io.tmpdir=" + java_tmp()]
     if dfs:
         cmd.append("-Dtlc2.tool.queue.IStateQueue=StateDeque")
     cmd += list(extra_props)
